@@ -142,6 +142,10 @@ func GenSpec(t *rapid.T) *Spec {
 		s.RtMaxNodes = uint16(rapid.SampledFrom([]int{0, 0, 1, 1, 2}).Draw(t, "rtMaxNodes"))
 		s.RtMinPoolExtra = uint16(rapid.SampledFrom([]int{0, 0, 1, 2}).Draw(t, "rtMinPoolExtra"))
 		s.RtValidatorSet = rapid.IntRange(0, 3).Draw(t, "rtValidatorSet") == 0 || split
+		if s.RtValidatorSet {
+			// the constraint may sit on one of the two roles only
+			s.RtValidatorSetRole = rapid.SampledFrom([]int{0, 0, 1, 2}).Draw(t, "rtValidatorSetRole")
+		}
 		s.RtOwnStake = rapid.Bool().Draw(t, "rtOwnStake")
 		s.RtSlash = uint64(rapid.SampledFrom([]int{0, 1, 100, 100}).Draw(t, "rtSlash"))
 		s.RtMaxInMsgs = uint32(rapid.SampledFrom([]int{0, 1, 2, 8}).Draw(t, "rtMaxInMsgs"))
